@@ -161,5 +161,39 @@ pub proof fn lemma_ord_lex(a: Seq<u8>, b: Seq<u8>)
     }
 //@end
 
+// =====================================================================================
+// The comparators handed to sort_by in sorted_entrypoints / sorted_user_written_types: by
+// parent type first, then by sort_field_name (the `match` expressions are extracted from the
+// real closures; the selectable look-ups in front of them are not)
+// =====================================================================================
+/// the two fields of a client selectable the comparators read (entity names as integers, R8)
+pub struct SelectableInfo<'a> { pub parent_entity_name: u64, pub name: SelectableName<'a> }
+pub fn entrypoint_order<'a>(client_scalar_selectable_1: &SelectableInfo<'a>, client_scalar_selectable_2: &SelectableInfo<'a>) -> (r: Ordering)
+    ensures
+        // overloads of ONE parent type come in the order in which a longer name precedes every
+        // proper prefix of it (so the overload for Query.FooBar is tried before Query.Foo)
+        client_scalar_selectable_1.parent_entity_name == client_scalar_selectable_2.parent_entity_name
+            && client_scalar_selectable_1.name.bytes() != client_scalar_selectable_2.name.bytes()
+            ==> r == ord(client_scalar_selectable_1.name.bytes(), client_scalar_selectable_2.name.bytes()), //@O C24.O-3_entrypoints_of_one_type_are_in_the_end_sorts_last_order
+        client_scalar_selectable_1.parent_entity_name == client_scalar_selectable_2.parent_entity_name
+            && client_scalar_selectable_1.name.bytes() != client_scalar_selectable_2.name.bytes()
+            && is_prefix(client_scalar_selectable_2.name.bytes(), client_scalar_selectable_1.name.bytes())
+            ==> r == Ordering::Less, //@O C24.O-3_longer_entrypoint_name_precedes_its_proper_prefix
+        client_scalar_selectable_1.parent_entity_name != client_scalar_selectable_2.parent_entity_name ==> r != Ordering::Equal,
+{
+//@expr rel=crates/artifact_content/src/iso_overload_file.rs fn=sorted_entrypoints start="match client_scalar_selectable_1 .parent_entity_name" block=entrypoint_order serves=C24
+}
+pub fn client_type_order<'a>(parent_1: u64, selectable_name_1: SelectableName<'a>, parent_2: u64, selectable_name_2: SelectableName<'a>) -> (r: Ordering)
+    ensures
+        parent_1 == parent_2 && selectable_name_1.bytes() != selectable_name_2.bytes()
+            ==> r == ord(selectable_name_1.bytes(), selectable_name_2.bytes()), //@O C24.O-3_client_fields_of_one_type_are_in_the_end_sorts_last_order
+        parent_1 == parent_2 && selectable_name_1.bytes() != selectable_name_2.bytes()
+            && is_prefix(selectable_name_2.bytes(), selectable_name_1.bytes())
+            ==> r == Ordering::Less, //@O C24.O-3_longer_client_field_name_precedes_its_proper_prefix
+        parent_1 != parent_2 ==> r != Ordering::Equal,
+{
+//@expr rel=crates/artifact_content/src/iso_overload_file.rs fn=sorted_user_written_types start="match parent_1.cmp(&parent_2)" block=client_type_order serves=C24
+}
+
 } // verus!
 fn main() {}
